@@ -105,14 +105,21 @@ func perChannelTypes(p *Prog) map[string]bool {
 	}
 	// the fan-out may sit in ProcessSegments itself or in a helper it calls
 	for _, host := range DeepFuncs(ps, 2) {
-		for _, a := range Anons(host) {
-			if !startedWithGo(host, a) {
-				continue
+		// the functions the fan-out starts with `go`: closures or named methods
+		Instrs(host, func(in ssa.Instruction) {
+			g, ok := in.(*ssa.Go)
+			if !ok {
+				return
 			}
-			for _, prm := range a.Params {
-				add(prm.Type())
+			for _, f := range ResolveOr(p, g) {
+				if !isModuleFn(f) {
+					continue
+				}
+				for _, prm := range f.Params {
+					add(prm.Type())
+				}
 			}
-		}
+		})
 	}
 	return out
 }
